@@ -434,6 +434,10 @@ func (m *Machine) tick() (bool, error) {
 				m.Balances[a][v] = machine.Zero
 			}
 		case machine.Monetary:
+			if v.Amount.Ltz() {
+				// a negative amount would hand the account funds it does not have
+				return true, machine.NewErrNegativeAmount("tried to save %s %s from account %s: monetary amounts must be non-negative", v.Amount, v.Asset, a)
+			}
 			m.Balances[a][v.Asset] = m.Balances[a][v.Asset].Sub(v.Amount)
 		default:
 			panic(fmt.Errorf("invalid value type: %T", v))
